@@ -222,6 +222,15 @@ def check(ctx, rep, prop):
             tr_known_without = any((b0.get("impl_trait") == tr) for b0 in f0.bodies.values() if b0["krate"] == "proguard")
             if local_tr and not tr_known_without and not any(kn in tr for kn in ("uuid::", "watto::", "thiserror::", "lazy_static::")):
                 continue
+            # an impl *for a type that exists only with the feature* (`#[derive(Clone)]` on a feature-only private enum) cannot be
+            # selected by code that exists without it
+            m_self = re.match(r"^proguard::<([\w:]+)(<.*>)? as ", p)
+            if m_self:
+                self_path = "proguard::" + m_self.group(1)
+                in_f1 = any(a_["path"] == self_path for a_ in f1.all_adts("proguard"))
+                in_f0 = any(a_["path"] == self_path for a_ in f0.all_adts("proguard"))
+                if in_f1 and not in_f0:
+                    continue
             added_impl.append((p, "trait impl `%s` exists only with the feature" % tr))
     for p, why in (diff + added_impl)[:4]:
         rep.undecidable(rule, "%s/feature-uuid/%s" % (rule, p.split("::")[-1]), loc=p,
